@@ -61,6 +61,7 @@ pub fn create_wallet_from(w: &mut World, name: &str, masked: bool, phrase: &str)
 			password: "".into(),
 			seed: name.to_string(),
 			phrase: phrase.to_string(),
+			active: "default".into(),
 		},
 	);
 }
